@@ -126,10 +126,12 @@ class Session:
 
     # -- the real decode path -----------------------------------------------------------------
 
-    def decode(self, body: bytes) -> dict:
-        """{'kind': 'ok', 'report': canonical, 'json_valid': bool} | {'kind': 'notify', 'code', 'sub'} | {'kind': 'raised', 'exc'}"""
-        AttributeCollection.cached = None
-        AttributeCollection.previous = b''
+    def decode(self, body: bytes, fresh: bool = True) -> dict:
+        """{'kind': 'ok', 'report': canonical, 'json_valid': bool} | {'kind': 'notify', 'code', 'sub'} | {'kind': 'raised', 'exc'}
+        `fresh=False`: what the previous message left in the process-wide attribute cache stays."""
+        if fresh:
+            AttributeCollection.cached = None
+            AttributeCollection.previous = b''
         try:
             msg = Message.unpack(2, body, self.neg)
             data = msg if msg.IS_EOR else msg.data
